@@ -614,7 +614,14 @@ fn anf<'a>(
             ty: _,
         } => {
             let ty_clone = e_ty.clone();
-            anf_imm(
+            // the value goes into an `any` field: a bare numeric literal would get Go's
+            // default type (int, float64) there instead of its own
+            let operand_anf = if is_numeric_literal(&expr) {
+                anf_named
+            } else {
+                anf_imm
+            };
+            operand_anf(
                 anfenv,
                 gensym,
                 *expr,
